@@ -27,6 +27,7 @@ func init() {
 			{"C06/write-serialised", "packets of the two writers of a tunnel (packet loop, relay goroutine) are not interleaved: WritePacket only under the tunnel's write mutex (C09's tunnel rule)", func(c *Ctx) { c09TunnelAs(c, "C06/write-serialised") }},
 			{"C06/header-tests", "a complete packet is never taken for a fragment: readHeader's length tests are strict (<)", func(c *Ctx) { headerTests(c, "C06/header-tests") }},
 			{"C06/buffer-ownership", "a packet is assembled and handed on in storage of the call or the connection: no package-level buffer, no pooled buffer that the returned payload still aliases", func(c *Ctx) { packetBuffersPrivate(c, "C06/buffer-ownership") }},
+			{"C06/framer-accepts", "a packet is handed to the packet loop as complete only with readHeader's verdict: type, size and payload of an accepting return of readMessage are readHeader's results", func(c *Ctx) { framerAcceptsThroughHeader(c, "C06/framer-accepts") }},
 			{"C06/transports", "both transports hand over whole reads and write exactly the packet given, once, without deadlines", func(c *Ctx) {
 				transportRules(c, "C06/transports", true)
 				c.Floor("C06/transports", 5, "two reads, constructor, two writes")
